@@ -3,6 +3,7 @@
 package loadbalancer
 
 import (
+	"runtime"
 	"bufio"
 	"context"
 	"errors"
@@ -86,6 +87,12 @@ type vLB struct {
 	probeCode int32
 	health    *httptest.Server
 	fl        map[string]*vReq
+	// a probe held in flight: the health endpoint announces its arrival and waits for the answer
+	holdProbe atomic.Bool
+	arrived   chan struct{}
+	release   chan int
+	probeDone chan struct{}
+	probeName string
 }
 
 func (v *vLB) instrument() {
@@ -134,8 +141,13 @@ func TestVerifDriver(t *testing.T) {
 	out := bufio.NewWriter(outF)
 	defer out.Flush()
 
-	v := &vLB{fl: map[string]*vReq{}}
+	v := &vLB{fl: map[string]*vReq{}, arrived: make(chan struct{}, 1), release: make(chan int, 1)}
 	v.health = httptest.NewServer(http.HandlerFunc(func(w http.ResponseWriter, r *http.Request) {
+		if v.holdProbe.Load() {
+			v.arrived <- struct{}{}
+			w.WriteHeader(<-v.release)
+			return
+		}
 		w.WriteHeader(int(atomic.LoadInt32(&v.probeCode)))
 	}))
 	defer v.health.Close()
@@ -168,6 +180,13 @@ func TestVerifDriver(t *testing.T) {
 		}
 		fmt.Fprintln(out, res)
 	}
+	if v.probeDone != nil {
+		// input ended with a probe still held in flight: answer it, or the health server cannot close
+		v.release <- 200
+		<-v.probeDone
+		v.probeDone = nil
+		v.holdProbe.Store(false)
+	}
 	v.drain()
 }
 
@@ -183,6 +202,13 @@ func (v *vLB) op(w []string) string {
 		// new <strategy> <passive> <threshold> <eject_s> <rl> <max> <refill_s> <cb> <ft> <st> <mx> <iv_s> <to_s>
 		if len(w) != 14 {
 			return "bad-op"
+		}
+		if v.probeDone != nil {
+			// an episode ended with its probe still in flight: let it finish
+			v.release <- 200
+			<-v.probeDone
+			v.probeDone = nil
+			v.holdProbe.Store(false)
 		}
 		if v.lb != nil {
 			v.drain()
@@ -237,6 +263,66 @@ func (v *vLB) op(w []string) string {
 			return "err"
 		}
 		return "ok"
+	case "rrconc":
+		// rrconc <workers> <k> : n*k picks of the round-robin strategy made by <workers> concurrent
+		// goroutines; with every backend eligible each backend must be picked exactly k times
+		if len(w) != 3 {
+			return "bad-op"
+		}
+		rr, isRR := v.lb.strategy.(*RoundRobinStrategy)
+		bs := v.lb.strategy.GetBackends()
+		if !isRR || len(bs) == 0 {
+			return "n/a"
+		}
+		for _, b := range bs {
+			if !b.IsHealthy {
+				return "n/a"
+			}
+		}
+		workers, k := atoi(w[1]), atoi(w[2])
+		if workers < 1 || workers > 64 || k < 1 || k > 100000 {
+			return "bad-op"
+		}
+		total := len(bs) * k
+		counts := make([]int64, len(bs))
+		idx := map[*Backend]int{}
+		for i, b := range bs {
+			idx[b] = i
+		}
+		var next int64
+		var wg sync.WaitGroup
+		var nils int64
+		var ready, goFlag int32
+		for g := 0; g < workers; g++ {
+			wg.Add(1)
+			go func() {
+				defer wg.Done()
+				atomic.AddInt32(&ready, 1)
+				for atomic.LoadInt32(&goFlag) == 0 {
+					runtime.Gosched()
+				}
+				req := httptest.NewRequest("GET", "/", nil)
+				for atomic.AddInt64(&next, 1) <= int64(total) {
+					b := rr.NextBackend(req)
+					if b == nil {
+						atomic.AddInt64(&nils, 1)
+						continue
+					}
+					atomic.AddInt64(&counts[idx[b]], 1)
+				}
+			}()
+		}
+		for atomic.LoadInt32(&ready) < int32(workers) {
+			runtime.Gosched()
+		}
+		atomic.StoreInt32(&goFlag, 1)
+		wg.Wait()
+		for i := range counts {
+			if counts[i] != int64(k) {
+				return fmt.Sprintf("UNEVEN counts=%v want=%d nil=%d", counts, k, nils)
+			}
+		}
+		return "exact"
 	case "list":
 		var parts []string
 		for _, b := range v.lb.ListBackends() {
@@ -284,6 +370,49 @@ func (v *vLB) op(w []string) string {
 			atomic.StoreInt32(&v.probeCode, 500)
 		}
 		v.lb.checkBackendHealth(b)
+		return "ok"
+	case "probe-begin":
+		// probe-begin <name> <now> : an active check starts; if a probe is sent it stays in flight
+		if len(w) != 3 || v.probeDone != nil {
+			return "bad-op"
+		}
+		b := v.find(unesc(w[1]))
+		if b == nil {
+			return "nobackend"
+		}
+		verifclock.Set(atoi64(w[2]))
+		v.holdProbe.Store(true)
+		done := make(chan struct{})
+		go func() { v.lb.checkBackendHealth(b); close(done) }()
+		select {
+		case <-v.arrived:
+			v.probeDone = done
+			v.probeName = w[1]
+			return "started"
+		case <-done:
+			v.holdProbe.Store(false)
+			return "skipped"
+		case <-time.After(1500 * time.Millisecond):
+			v.holdProbe.Store(false)
+			return "probe-lost"
+		}
+	case "probe-end":
+		// probe-end <name> <now> <ok|fail> : the answer of the probe in flight arrives
+		if len(w) != 4 {
+			return "bad-op"
+		}
+		if v.probeDone == nil || v.probeName != w[1] {
+			return "none-pending"
+		}
+		verifclock.Set(atoi64(w[2]))
+		code := 200
+		if w[3] != "ok" {
+			code = 500
+		}
+		v.release <- code
+		<-v.probeDone
+		v.probeDone = nil
+		v.holdProbe.Store(false)
 		return "ok"
 	case "begin":
 		// begin <tid> <now> <xff> <xri> <remote>
